@@ -5,7 +5,7 @@ from common import impl_error
 
 PROP = "C16"
 MODULES = ["C16", "C16t"]
-GEN = ["Tms", "Ars", "TranslArs"]
+GEN = ["Tms", "Ars", "TranslArs", "TranslTms"]
 MATCHERS = {}
 
 TMS_TYPES = ["SERVICE_AVAILABILITY", "TMS_ACKNOWLEDGEMENT", "SIMPLE_TEXT_MESSAGE"]
@@ -2447,7 +2447,7 @@ def ENTRY_POINTS():
     return eps
 
 
-def run_transl(ctx, ars_enc_pairs, ars_dec_pairs):
+def run_transl(ctx, ars_enc_pairs, ars_dec_pairs, tms_enc_pairs=(), tms_dec_pairs=(), misc_pairs=()):
     """Differential validation of the source translator for byte-oriented object codecs (tools/py2lean_obj.py on top of
     py2lean_bits.py / py2lean.py) and of its preludes (Model/PyObj.lean, PyBits.lean, Py.lean), trusted base of Props/C16t: the
     definitions TRANSLATED from the source of automatic_registration_service.py (`Gen/TranslArs.lean`, driver operations `t.ars.*`,
@@ -2524,7 +2524,39 @@ def run_transl(ctx, ars_enc_pairs, ars_dec_pairs):
                           call(lambda: rsh(m.ResponseSecondHeader(failure_reason=fr, refresh_time=r)))))
     ctx.count("transl:ars.helpers+headers", len(extra))
     ctx.count("transl:ars.__len__", n_len)
-    ctx.correspond("transl", pairs + extra)
+    # TMS (`Gen/TranslTms.lean`, operations `t.tms.*`): again every case generated for the hand model (tms.enc / tms.dec / tms.hdr /
+    # tms.sn / tms.unsn lines, same expected values), plus read positions below zero and the availability header on every octet
+    tm = T()
+    tpairs = []
+    for src in (list(tms_enc_pairs), list(tms_dec_pairs)):
+        step = max(1, len(src) // cap)
+        for line, exp in src[::step]:
+            if line.startswith(("tms.enc ", "tms.dec ")):
+                tpairs.append(("t." + line, exp))
+    for line, exp in misc_pairs:
+        if line.startswith(("tms.hdr ", "tms.sn ", "tms.unsn ")):
+            tpairs.append(("t." + line, exp))
+    ctx.count("transl:tms.as_bytes/from_bytes/sn/hdr", len(tpairs))
+    textra = []
+
+    def unsn(d, i):
+        r = tm.TextMessagingService.decode_sn_and_encoding(d, i)
+        return "%d %d %s" % (r[0], r[1], "-" if r[2] is None else ["UNDEFINED", "UCS2_LE"].index(r[2].name))
+
+    for _ in range(ctx.budget(600, 6000)):
+        d = bytes(rng.choice((0, 0x1F, 0x80, 0x84, 0x9F, 0xE4, 0xFF, rng.randrange(256))) for _ in range(rng.choice((0, 1, 2, 3, 5))))
+        i = rng.randrange(-len(d) - 2, len(d) + 3)
+        textra.append((f"t.tms.unsn {hx(d)} {i}", call(unsn, d, i)))
+
+    def cap_show(d):
+        o = tm.AvailabilitySecondHeader.from_bytes(d)
+        b = call(o.as_bytes)
+        return "%d %s" % (o.capability.value, b if is_err(b) else hx(b))
+
+    for d in octets:
+        textra.append(("t.tms.cap " + hx(d), call(cap_show, d)))
+    ctx.count("transl:tms.helpers", len(textra))
+    ctx.correspond("transl", pairs + extra + tpairs + textra)
 
 
 def run(ctx):
@@ -2653,7 +2685,7 @@ def run(ctx):
         ctx.correspond("ars.as_bytes", ae)
         ctx.correspond("ars.from_bytes", ad)
         ctx.correspond("headers/sn/utf8", misc)
-    run_transl(ctx, ae, ad)
+    run_transl(ctx, ae, ad, te, td, misc)
 
 
 def replay(obj):
